@@ -79,6 +79,8 @@ type Scenario struct {
 	Clients      []ClientSpec
 	Reply        ReplyFn
 	ReplyCuts    []int           // every backend reply is cut at these offsets (that are < len)
+	CoalesceAll  bool            // a backend read event delivers ALL replies that are ready (several replies in one read)
+	CoalesceChoice bool          // ... or how many of them is an explorer choice (kind "coalesce")
 	HandshakeCuts []int          // non-nil: AUTH/READONLY replies of one write are coalesced and cut at these offsets
 	Stateful     bool            // nodes keep a real KV (GET/SET/DEL/MGET/MSET/INCR/APPEND)
 	CheckOwner   bool            // nodes answer -MOVED for slots they do not own
@@ -639,15 +641,34 @@ func (w *World) wait() (fd int, mask uint32, n int, stop bool) {
 		case evBackend:
 			bc := w.BConns[ev.idx]
 			if len(bc.Sock.Rx) == 0 && bc.headReady(w) {
-				bc.Sock.Rx = append(bc.Sock.Rx, bc.outbox[0].data...)
-				if bc.outbox[0].last {
-					bc.Delivered++
-					if bc.outbox[0].hs && bc.hsMerged > 0 {
-						bc.Delivered += bc.hsMerged
-						bc.hsMerged = 0
+				// how many of the ready chunks arrive in this one read
+				ready := 0
+				for ready < len(bc.outbox) {
+					h := bc.outbox[ready].hold
+					if !(h == 0 || (h > 0 && w.Ticks >= h)) {
+						break
+					}
+					ready++
+				}
+				take := 1
+				if ready > 1 {
+					if w.Sc.CoalesceAll {
+						take = ready
+					} else if w.Sc.CoalesceChoice {
+						take = 1 + vsys.Choose("coalesce", ready)
 					}
 				}
-				bc.outbox = bc.outbox[1:]
+				for ; take > 0; take-- {
+					bc.Sock.Rx = append(bc.Sock.Rx, bc.outbox[0].data...)
+					if bc.outbox[0].last {
+						bc.Delivered++
+						if bc.outbox[0].hs && bc.hsMerged > 0 {
+							bc.Delivered += bc.hsMerged
+							bc.hsMerged = 0
+						}
+					}
+					bc.outbox = bc.outbox[1:]
+				}
 			}
 			return bc.Sock.Fd, vsys.ReadyMask(bc.Sock.Fd), 1, false
 		case evClient:
